@@ -41,7 +41,34 @@ type Summary struct {
 	Notes      map[string]any    `json:"notes,omitempty"`
 }
 
+// whatOnly / whatNot restrict which kinds of disagreement a replay reports, so that two properties
+// sharing one generator are each judged on their own clauses ("machinery" and "panic" always pass).
+var whatOnly, whatNot []string
+
+func whatSelected(what string) bool {
+	if what == "machinery" || what == "panic" || what == "hang" {
+		return true
+	}
+	for _, p := range whatNot {
+		if strings.HasPrefix(what, p) {
+			return false
+		}
+	}
+	if len(whatOnly) == 0 {
+		return true
+	}
+	for _, p := range whatOnly {
+		if strings.HasPrefix(what, p) {
+			return true
+		}
+	}
+	return false
+}
+
 func (s *Summary) viol(what string, c json.RawMessage, format string, a ...any) {
+	if !whatSelected(what) {
+		return
+	}
 	s.NViol++
 	if len(s.Violations) < 20 {
 		s.Violations = append(s.Violations, Violation{s.Family, what, c, fmt.Sprintf(format, a...)})
@@ -171,7 +198,15 @@ func main() {
 		raw := fs.Bool("raw", false, "input is plain ndjson, not TLC output")
 		fs.StringVar(&tlcLog, "tlclog", "", "write TLC's own output lines to this file")
 		fs.Int64Var(&baseSeed, "seed", 1, "seed for value maps and permutations")
+		only := fs.String("what", "", "comma-separated prefixes of disagreement kinds to report (default all)")
+		not := fs.String("notwhat", "", "comma-separated prefixes of disagreement kinds to ignore")
 		fs.Parse(os.Args[3:])
+		if *only != "" {
+			whatOnly = strings.Split(*only, ",")
+		}
+		if *not != "" {
+			whatNot = strings.Split(*not, ",")
+		}
 		if f.replay == nil {
 			fmt.Fprintln(os.Stderr, "binder: family has no replay")
 			os.Exit(2)
